@@ -126,6 +126,9 @@ func VerifStubParseRows(s *Schema, query *SelectQuery, res *sql.Rows) ([]interfa
 			out = append(out, r)
 		}
 	}
+	// the rows were read at this instant; the answer takes time to travel back
+	// (a database round trip is a blocking operation: other goroutines may run)
+	nondet.Yield()
 	return out, nil
 }
 
